@@ -287,6 +287,19 @@ func Eq(a, b *Term) *Term {
 			return Not(b)
 		}
 	}
+	// comparisons with a constant are pushed into conditionals when that decides a branch
+	if b.IsConstInt() && a.Op == "ite" {
+		l, r := Eq(a.Args[1], b), Eq(a.Args[2], b)
+		if l.IsConstBool() || r.IsConstBool() {
+			return Ite(a.Args[0], l, r)
+		}
+	}
+	if a.IsConstInt() && b.Op == "ite" {
+		l, r := Eq(b.Args[1], a), Eq(b.Args[2], a)
+		if l.IsConstBool() || r.IsConstBool() {
+			return Ite(b.Args[0], l, r)
+		}
+	}
 	// distinct named byte-string constants
 	if a.Op == "app" && b.Op == "app" && len(a.Args) == 0 && len(b.Args) == 0 &&
 		strings.HasPrefix(a.Name, "strc_") && strings.HasPrefix(b.Name, "strc_") {
